@@ -85,12 +85,17 @@ def r4_1(ctx):
     for s in b.normal:
         if s in b.reachable and b.term(s)["k"] == "switch":
             d = ex.switch_discr(s)
-            if d[0] == "bin" and d[1] == "Eq":
+            if d[0] == "bin" and d[1] in ("Eq", "Ne"):
                 for x, k in ((strip_refs(d[2]), strip_refs(d[3])), (strip_refs(d[3]), strip_refs(d[2]))):
                     if k == ("agg", "board::PieceKind", "King", ()) and x[0] == "field" and x[2] == "kind":
                         kind_e = x
+            elif d[0] == "discr":
+                # `match piece.kind { King => .., Pawn => .., _ => .. }`
+                x = strip_refs(d[1])
+                if x[0] == "field" and x[2] == "kind" and d[2] == "board::PieceKind" and kind_e is None:
+                    kind_e = x
     if kind_e is None:
-        raise ShapeNotRecognised("make_move: no `piece.kind == King` test")
+        raise ShapeNotRecognised("make_move: the kind of the moved piece is never tested (`piece.kind == King` / `match piece.kind`)")
     col_e = ("field", kind_e[1], "color")
     # destination square: second parse::<Point> result
     pts = []
@@ -215,9 +220,26 @@ def r4_4(ctx):
         bb, i = loc
         st = b.stmts(bb)
         e = ex.rvalue(st[i]["rv"], loc) if i < len(st) else ex.call_expr(b.term(bb), loc)
-        ok = any(x[0] == "call" and x[1] == "board::BoardState::from_fen" for x in subexprs(e))
-        ctx.ob("play_out_position:board-def#%d" % nd, ok, b.where(loc), "the board is created by from_fen: `%s`" % show_expr(e, b)[:80])
-    ctx.floor("board definitions", nd, 2)
+
+        def origins(x, seen):
+            """The expressions a value can come from, through merged definitions (a board handed back by
+            a helper with several returns is a variable with one definition per return)."""
+            x = strip_refs(x)
+            if x[0] == "var" and x not in seen:
+                seen.add(x)
+                out = []
+                for dloc, k in x[2]:
+                    if k != "whole":
+                        return [x]
+                    dst = b.stmts(dloc[0])
+                    de = ex.rvalue(dst[dloc[1]]["rv"], dloc) if dloc[1] < len(dst) else ex.call_expr(b.term(dloc[0]), dloc)
+                    out += origins(de, seen)
+                return out
+            return [x]
+        os_ = origins(e, set())
+        ok = bool(os_) and all(any(x[0] == "call" and x[1] == "board::BoardState::from_fen" for x in subexprs(o)) for o in os_)
+        ctx.ob("play_out_position:board-def#%d" % nd, ok, b.where(loc), "the board is created by from_fen: `%s`" % "; ".join(show_expr(o, b)[:60] for o in os_[:3]))
+    ctx.floor("board definitions", nd, 1)
     muts = []
     for loc, kind in b.reaching().all_sites(L):
         if kind == "borrow":
@@ -294,8 +316,16 @@ def r4_2(ctx):
                 d0 = strip_refs(d)
                 if truth and d0[0] == "bin" and d0[1] == "Eq" and d0[3] == ("const", 2) and any(x[0] == "call" and x[1].endswith("::abs") for x in subexprs(d0[2])):
                     trig.append("two-rows")
-                if truth and d0[0] == "bin" and d0[1] == "Eq" and ("agg", "board::PieceKind", "Pawn", ()) in (strip_refs(d0[2]), strip_refs(d0[3])):
-                    trig.append("pawn")
+            # the mover is a pawn on this trace: `kind == Pawn` or the Pawn arm of `match kind`
+            kinds = f.enum_variant_by_discr("board::PieceKind")
+            cands = set()
+            for d, vals, excl, s, tg in dominating_facts(b, ex, loc[0]):
+                for x in subexprs(d):
+                    x = strip_refs(x)
+                    if x[0] == "field" and x[2] == "kind":
+                        cands.add(x)
+            if any(enum_value_on_trace(b, ex, loc[0], x, kinds) == {"Pawn"} for x in cands):
+                trig.append("pawn")
             ctx.ob("make_move:ep-trigger", sorted(trig) == ["pawn", "two-rows"], b.where(loc), "target recorded exactly for a pawn moving two rows: %s" % sorted(trig))
     # --- generator
     an = successor.get(ctx)
@@ -323,4 +353,4 @@ def r4_2(ctx):
             ctx.ob("generate_moves_for_piece:ep-target:%s" % sorted(poss), ok, gb.where(dloc),
                    "generator records (to.row %+d, to.col) for a %s double step; the passed-over square is to.row %+d" % (
                        lr[1] if lr else 0, sorted(poss), -chess.PAWN[next(iter(poss))]["dir"] if len(poss) == 1 else 0))
-    ctx.floor("ep target definitions (both producers)", n, 4)
+    ctx.floor("ep target definitions (both producers)", n, 2)
